@@ -186,6 +186,40 @@ func checkC17(c *Case, s *Stats) error {
 			rankEntries = len(sl.InnerPrefixes.PresenceBM.RankIndex)
 		}
 	}
+	if c.Scrib == 1 {
+		// A caller that built a Complete index earlier and re-uses its option
+		// variables: filter mode spelled with explicit false flags must give the
+		// same index as the defaults, whatever was built before with those variables.
+		var hsize int
+		err := guard("filter-mode build after a Complete build sharing option variables", func() error {
+			off1, off2 := trie.Bool(false), trie.Bool(false)
+			full := trie.Opt{InnerPrefix: off1, LeafPrefix: off2, Complete: trie.Bool(true)}
+			few := keys
+			if len(few) > 50 {
+				few = few[:50]
+			}
+			if _, e := trie.NewSlimTrie(nil, few, nil, full); e != nil {
+				return viol("build", "NewSlimTrie rejected valid input: %v", e)
+			}
+			st, e := trie.NewSlimTrie(nil, keys, nil, trie.Opt{InnerPrefix: off1, LeafPrefix: off2})
+			if e != nil {
+				return viol("build", "NewSlimTrie rejected valid input: %v", e)
+			}
+			b, e := st.Marshal()
+			if e != nil {
+				return viol("marshal", "Marshal failed: %v", e)
+			}
+			hsize = len(b)
+			return nil
+		})
+		if err != nil {
+			return err
+		}
+		if hsize != size {
+			return viol("size-bound", "filter mode spelled with explicit false flags, after a Complete build that shared the flag variables, gives %d bytes; default options give %d bytes (%d keys)", hsize, size, n)
+		}
+		s.class("shared_option_variables_history")
+	}
 	maxP := 0
 	if len(c.Prefix) >= 2 && n > 0 {
 		p1, p2 := string(c.Prefix[0]), string(c.Prefix[1])
